@@ -36,6 +36,39 @@ let do_rfoffs () =
   print_qs "drift" dr;
   print_string "end\n"
 
+(* genoffs <id> <n> <nb> qmin0 qmax0 qmin1 qmax1 scaleMeter0 scaleEV1 c two_pi
+           lin angle fRF | sin revpart vrf frf v0
+           t sync sn_0 .. sn_{n-1}  <docalc> [phase ampl]  <nslip> slip.. e0
+     -> the run of the GENERATED constructors / _calcKick (Gen/Gen_RFDrift.v through Model/RFDriftGen.v):
+        gconst (bl2phase syncphase as the generated member initialisers give them), grf (offsets), gdrift (offsets),
+        gbuilt (1 iff the table was built from these offsets: RF map, drift map) *)
+let do_genoffs () =
+  let id = next () in
+  let n = nexti () in let nb = nexti () in
+  let qmin0 = nextq () in let qmax0 = nextq () in
+  let qmin1 = nextq () in let qmax1 = nextq () in
+  let scm = nextq () in let sce = nextq () in
+  let c = nextq () in let tp = nextq () in
+  let kind = next () in
+  let lin = (kind = "lin") in
+  let p1 = nextq () in let p2 = nextq () in
+  let (p3, p4) = if lin then (p1, p1) else (let a = nextq () in let b = nextq () in (a, b)) in
+  let t = nextq () in let sync = nextq () in
+  let sn = nextqs n in
+  let docalc = (nexti () = 1) in
+  let (cph, camp) = if docalc then (let a = nextq () in let b = nextq () in (a, b)) else (sync, sync) in
+  let ns = nexti () in
+  let slip = nextqs ns in
+  let e0 = nextq () in
+  let ((bl, sy), ((rf, brf), (dr, bdr))) =
+    gen_offs_run (z_of_int n) (z_of_int nb) qmin0 qmax0 qmin1 qmax1 scm sce c tp lin p1 p2 p3 p4 t sync sn docalc cph camp slip e0 in
+  Printf.printf "case %s\n" id;
+  print_qs "gconst" [bl; sy];
+  print_qs "grf" rf;
+  print_qs "gdrift" dr;
+  Printf.printf "gbuilt %d %d\n" (if brf then 1 else 0) (if bdr then 1 else 0);
+  print_string "end\n"
+
 let nextz () = z_of_hex (next ())
 
 (* rfmom <id> <n> <nb> XC YC f  data(nb*n*n integers, hex)  -> m S0 U V per bunch (integers) *)
@@ -66,4 +99,4 @@ let do_rforbit () =
   print_newline ();
   print_string "end\n"
 
-let () = run_main ["rfoffs", do_rfoffs; "rfmom", do_rfmom; "rforbit", do_rforbit]
+let () = run_main ["rfoffs", do_rfoffs; "genoffs", do_genoffs; "rfmom", do_rfmom; "rforbit", do_rforbit]
